@@ -13,7 +13,7 @@ KTOL = 1e-13         # enclosure of every shipped power-kernel value against the
 RULE = ('peak-only series: every non-constant series over {-2..2} up to length 5 (quick) / 6 plus every 4th of length 7 (thorough), random plateau-rich integer series with offsets, '
         'dyadic-grid real series and scaled copies (2^-30, 2^20), inputs given as float arrays, integer arrays and lists; tolerance 0 (exact domain); the conservation identities '
         '(sum|delta| = TV, |sum delta| = |last-first|, sum pseudo = TV/2 + sgn_final*(last-first)/2) are also evaluated on the implementation outputs, shift invariance by exact comparison of two implementation runs. '
-        'power law: b = 1/e (e in 1..16) with the integer power computed in Q, and arbitrary b in (0.05,1] (scalar and array) with the implementation kernel values x**(1/b) shipped as tables '
+        'power law: b = 1/e (e in 1..16) with the integer power computed in Q (every 7th case and half of the other integer-valued pairs: records stored as int64), and arbitrary b in (0.05,1] (scalar and array) with the implementation kernel values x**(1/b) shipped as tables '
         'whose every entry is enclosed against Rpower by an interval goal (1e-13 relative); outputs compared at 1e-9 relative to the series maximum; cut_off in {0, 0.01, 0.05, 0.1, 1/16 placed exactly on a peak} (cases whose cut-off test compares operands within 1e-12 relative without being equal are counted fragile and skipped); '
         'relational clauses (length, non-decreasing, inverse law, linear scaling, joint scaling, 2^b combination, geometric mean of identical components) evaluated on implementation outputs; '
         'non-trivial = series has an interior turning point (peak-only) / at least two switched peaks (power law)')
@@ -296,8 +296,9 @@ def run(rep, rng, tier):
         L = frac(cut) * max(abs(frac(v)) for v in xs)
         return any(0 < abs(abs(frac(v)) - L) <= L / 10 ** 12 for v in xs)
 
-    def power_case(xs, ys, a_ref, ncyc, cut, b, e, klass):
-        """b scalar float or list of floats; e = integer with b == 1/e (scalar only) or None"""
+    def power_case(xs, ys, a_ref, ncyc, cut, b, e, klass, int_store=False):
+        """b scalar float or list of floats; e = integer with b == 1/e (scalar only) or None;
+        int_store: integer-valued records are passed as int64 arrays (otherwise: half of the integer-valued pairs)"""
         nt = len(sp_hint(xs)) >= 2
         bs = b if isinstance(b, list) else [b]
         barg = np.array(b) if isinstance(b, list) else b
@@ -305,7 +306,7 @@ def run(rep, rng, tier):
         n = len(xs)
         X, Y = np.array(xs, dtype=float), np.array(ys, dtype=float)
         base = {'values': xs, 'b': b}
-        if all(float(v).is_integer() for v in list(xs) + list(ys)) and rng.random() < 0.5:
+        if all(float(v).is_integer() for v in list(xs) + list(ys)) and (int_store or rng.random() < 0.5):
             # records stored as integers (digitiser counts): the functions must treat them as the same numbers
             X, Y = X.astype(np.int64), Y.astype(np.int64)
             base['dtype'] = 'int64'
@@ -451,7 +452,11 @@ def run(rep, rng, tier):
             xs = [float(v) for v in gens.excursion_series(rng, len(xs))]
             xs[rng.randrange(len(xs))] = 16.0 * rng.choice([-1, 1])
             cut = 0.0625
-        power_case(xs, ys, a_ref, ncyc, cut, 1.0 / e, e, 'b=1/%d' % e)
+        forced_int = k % 7 == 3   # a fixed share of integer-count records stored as int64 (not left to the chance of drawing two integer-valued series)
+        if forced_int:
+            xs = [float(v) for v in gens.excursion_series(rng, len(xs))]
+            ys = [float(v) for v in gens.excursion_series(rng, len(xs))]
+        power_case(xs, ys, a_ref, ncyc, cut, 1.0 / e, e, 'b=1/%d' % e, int_store=forced_int)
     n_t = 24 if quick else 150
     for k in range(n_t):
         xs = pl_series(24)
